@@ -19,4 +19,12 @@ PROPS = {
                          "mock pages/iterators of the harness behave as honest IStaticPage/IPage/IIterator implementations"],
         "assumptions": ["stream paginators are exercised only over streams without future pages (their extra wait loop is timing-dependent, see DESIGN §7 C19)"],
     },
+    "C20": {
+        "areas": ["Hash"],
+        "harness": "hash",
+        "verdict_findings": {"C20_verdict_history": "stale-bytes-after-failed-calculation"},
+        "trusted_base": ["hash.Hash contract (Write accumulates, Reset clears, Sum = H(absorbed)) — exercised on the six real algorithms every run",
+                         "gofacts' recognition of the CalculateWithContext skeleton (fails closed)"],
+        "assumptions": ["the hash functions themselves are not modelled: theorems hold for every H"],
+    },
 }
